@@ -4,7 +4,9 @@
 //   factor nv par[nv] simple[nv] nC vals[nC] x[nv]        mj_factorI / mj_solveLD / mulM / fullM on raw values
 //   model seed feat nbody flags                           compiled random tree (mjgen.h), random state
 //        flags: 1 = give every tendon an armature, 2 = add simple bodies (free sphere / aligned sliders),
-//               4 = add bodies with 2-3 joints in mixed hinge/slide order
+//               4 = add bodies with 2-3 joints in mixed hinge/slide order,
+//               8 = add spatial tendons (sites, pulleys with divisor != 1, armature),
+//              16 = add actuators with armature on scalar joints / tendons (several per target, gear != 1)
 // stdout: one line per request, groups separated by '|', ints decimal, doubles %a
 #include "mjgen.h"
 #include "engine/engine_io.h"
@@ -116,6 +118,66 @@ int main(void) {
           }
         }
       }
+      if (flags & 8) {
+        // spatial (site-wrapping) tendons, with and without pulleys (divisor 1, 2, 0.5, 3), with and without armature;
+        // sites on the world and on random bodies
+        int nsp = 1 + mjg_int(r, 2);
+        int sid = 0;
+        for (int k = 0; k < nsp; k++) {
+          mjsTendon* t = mjs_addTendon(s, NULL);
+          if (mjg_chance(r, 0.75)) t->armature = mjg_range(r, 0.05, 1.0);
+          int nbranch = 1 + mjg_int(r, 3);
+          for (int br = 0; br < nbranch; br++) {
+            if (br > 0) { static const double dv[4] = {2, 0.5, 3, 1}; mjs_wrapPulley(t, dv[mjg_int(r, 4)]); }
+            int ns = 2 + mjg_int(r, 2);
+            for (int q = 0; q < ns; q++) {
+              char pn[16], sn[16]; snprintf(pn, sizeof(pn), "b%d", mjg_int(r, nbody)); snprintf(sn, sizeof(sn), "ts%d", sid++);
+              mjsBody* body = (q == 0 && mjg_chance(r, 0.4)) ? mjs_findBody(s, "world") : mjs_findBody(s, pn);
+              if (!body) body = mjs_findBody(s, "world");
+              mjsSite* st = mjs_addSite(body, NULL); mjs_setName(st->element, sn);
+              for (int c = 0; c < 3; c++) st->pos[c] = mjg_range(r, -0.3, 0.3);
+              mjs_wrapSite(t, sn);
+            }
+          }
+        }
+      }
+      // actuators with armature (flag 16): on scalar joints and on tendons, several per target, gear != 1;
+      // recorded here (name of target, armature*gear^2) so that the reference does not use jnt/tendon_actuatorid
+      enum { MAXACT = 16 };
+      char act_target[MAXACT][32]; int act_is_tendon[MAXACT]; double act_arm[MAXACT]; int nact16 = 0;
+      if (flags & 16) {
+        int want = 1 + mjg_int(r, 4);
+        for (int k = 0; k < want && nact16 < MAXACT; k++) {
+          int on_tendon = mjg_chance(r, 0.4);
+          const char* tname = NULL;
+          if (on_tendon) {
+            int cnt = 0; for (mjsElement* e = mjs_firstElement(s, mjOBJ_TENDON); e; e = mjs_nextElement(s, e)) cnt++;
+            if (!cnt) on_tendon = 0;
+            else {
+              int pick = mjg_int(r, cnt), c = 0;
+              for (mjsElement* e = mjs_firstElement(s, mjOBJ_TENDON); e; e = mjs_nextElement(s, e), c++)
+                if (c == pick) { mjsTendon* tt = mjs_asTendon(e); if (!mjs_getName(e) || !*mjs_getString(mjs_getName(e))) { char nm[16]; snprintf(nm, sizeof(nm), "xt%d", k); mjs_setName(e, nm); } tname = mjs_getString(mjs_getName(e)); (void)tt; }
+            }
+          }
+          if (!on_tendon) {
+            // scalar joints only (hinge / slide)
+            int cnt = 0; for (mjsElement* e = mjs_firstElement(s, mjOBJ_JOINT); e; e = mjs_nextElement(s, e)) { mjsJoint* j = mjs_asJoint(e); if (j->type == mjJNT_HINGE || j->type == mjJNT_SLIDE) cnt++; }
+            if (!cnt) continue;
+            int pick = mjg_int(r, cnt), c = 0;
+            for (mjsElement* e = mjs_firstElement(s, mjOBJ_JOINT); e; e = mjs_nextElement(s, e)) {
+              mjsJoint* j = mjs_asJoint(e); if (!(j->type == mjJNT_HINGE || j->type == mjJNT_SLIDE)) continue;
+              if (c++ == pick) { if (!mjs_getName(e) || !*mjs_getString(mjs_getName(e))) { char nm[16]; snprintf(nm, sizeof(nm), "xj%d", k); mjs_setName(e, nm); } tname = mjs_getString(mjs_getName(e)); }
+            }
+          }
+          if (!tname) continue;
+          mjsActuator* a = mjs_addActuator(s, NULL);
+          a->trntype = on_tendon ? mjTRN_TENDON : mjTRN_JOINT; mjs_setString(a->target, tname);
+          a->gear[0] = mjg_chance(r, 0.3) ? 1.0 : mjg_range(r, 0.5, 3);
+          a->armature = mjg_chance(r, 0.8) ? mjg_range(r, 0.01, 0.5) : 0;
+          snprintf(act_target[nact16], 32, "%s", tname); act_is_tendon[nact16] = on_tendon; act_arm[nact16] = a->armature * a->gear[0] * a->gear[0];
+          nact16++;
+        }
+      }
       mjModel* m = NULL; mjData* d = NULL;
       if (MJG_TRY) {
         m = mj_compile(s, NULL);
@@ -123,6 +185,16 @@ int main(void) {
         d = mj_makeData(m);
         mjg_random_state(m, d, r, 1.0);
         int nv = m->nv;
+        // total armature per dof and per tendon = own armature + sum of armature*gear^2 of the actuators recorded above
+        mjtNum* arm_dof = (mjtNum*)calloc(nv + 1, sizeof(mjtNum));
+        mjtNum* arm_ten = (mjtNum*)calloc(m->ntendon + 1, sizeof(mjtNum));
+        for (int i = 0; i < nv; i++) arm_dof[i] = m->dof_armature[i];
+        for (int t = 0; t < m->ntendon; t++) arm_ten[t] = m->tendon_armature[t];
+        for (int k = 0; k < nact16; k++) {
+          int id = mj_name2id(m, act_is_tendon[k] ? mjOBJ_TENDON : mjOBJ_JOINT, act_target[k]);
+          if (id < 0) continue;
+          if (act_is_tendon[k]) arm_ten[id] += act_arm[k]; else arm_dof[m->jnt_dofadr[id]] += act_arm[k];
+        }
         mj_fwdPosition(m, d);       // kinematics, comPos, crb, tendon armature, factorM
         mj_fwdVelocity(m, d);       // comVel, passive, qfrc_bias = rne(0)
         pri(&nv, 1); pri(m->dof_parentid, nv); pri(m->dof_simplenum, nv);
@@ -139,7 +211,7 @@ int main(void) {
         mj_rne(m, d, 0, w); prd(w, nv);                              // rne(0)
         for (int i = 0; i < nv; i++) d->qacc[i] = v[i];
         mj_rne(m, d, 1, u); prd(u, nv);                              // rne(a), a = v
-        prd(m->dof_armature, nv);
+        prd(arm_dof, nv);
         // independent reference: M = sum_b Jp' m Jp + Jr' (R I R') Jr  + diag(armature)   (no tendon armature)
         mjtNum* jp = (mjtNum*)malloc(sizeof(mjtNum)*(3*nv+1)), *jr = (mjtNum*)malloc(sizeof(mjtNum)*(3*nv+1));
         for (int i = 0; i < nv*nv; i++) full[i] = 0;
@@ -155,16 +227,16 @@ int main(void) {
             full[i*nv+j] += acc;
           }
         }
-        for (int i = 0; i < nv; i++) full[i*nv+i] += m->dof_armature[i];
+        for (int i = 0; i < nv; i++) full[i*nv+i] += arm_dof[i];
         prd(full, nv*nv);
         // tendon armature contribution: sum_t armature_t J_t' J_t (dense), so that the oracle can add it
         mjtNum* tj = (mjtNum*)malloc(sizeof(mjtNum)*(nv+1));
         for (int i = 0; i < nv*nv; i++) full[i] = 0;
         for (int t = 0; t < m->ntendon; t++) {
-          if (!m->tendon_armature[t]) continue;
+          if (!arm_ten[t]) continue;
           for (int i = 0; i < nv; i++) tj[i] = 0;
           for (int k = 0; k < m->ten_J_rownnz[t]; k++) tj[m->ten_J_colind[m->ten_J_rowadr[t]+k]] = d->ten_J[m->ten_J_rowadr[t]+k];
-          for (int i = 0; i < nv; i++) for (int j = 0; j < nv; j++) full[i*nv+j] += m->tendon_armature[t]*tj[i]*tj[j];
+          for (int i = 0; i < nv; i++) for (int j = 0; j < nv; j++) full[i*nv+j] += arm_ten[t]*tj[i]*tj[j];
         }
         prd(full, nv*nv);
         // independent Newton-Euler at zero acceleration, world frame, no cdof/cdof_dot/cvel:
@@ -174,10 +246,16 @@ int main(void) {
           mjData* d2 = mj_makeData(m);
           mjtNum eps = 1e-6;
           mjtNum* acc = (mjtNum*)calloc(6*m->nbody*2 + 1, sizeof(mjtNum));   // [sign][body][6] = J v
+          mjtNum* tacc = (mjtNum*)calloc(2*m->ntendon + 1, sizeof(mjtNum));  // [sign][tendon] = ten_J v
           for (int sgn = 0; sgn < 2; sgn++) {
             mju_copy(d2->qpos, d->qpos, m->nq);
             mj_integratePos(m, d2->qpos, d->qvel, sgn ? eps : -eps);
-            mj_kinematics(m, d2); mj_comPos(m, d2);
+            mj_kinematics(m, d2); mj_comPos(m, d2); mj_tendon(m, d2);
+            for (int t = 0; t < m->ntendon; t++) {
+              mjtNum sv = 0;
+              for (int k = 0; k < m->ten_J_rownnz[t]; k++) sv += d2->ten_J[m->ten_J_rowadr[t]+k] * d->qvel[m->ten_J_colind[m->ten_J_rowadr[t]+k]];
+              tacc[sgn*m->ntendon + t] = sv;
+            }
             for (int b = 1; b < m->nbody; b++) {
               mj_jac(m, d2, jp, jr, d2->xipos+3*b, b);
               for (int k = 0; k < 3; k++) {
@@ -202,11 +280,23 @@ int main(void) {
             for (int k = 0; k < 3; k++) { frc[k] = m->body_mass[b]*(ap[k] - m->opt.gravity[k]); trq[k] = Iar[k] + gyro[k]; }
             for (int i = 0; i < nv; i++) for (int k = 0; k < 3; k++) w[i] += jp[k*nv+i]*frc[k] + jr[k*nv+i]*trq[k];
           }
+          // tendon armature: the kinetic energy 1/2 a (J v)^2 contributes  a J' (Jdot v)  to the bias force
+          for (int t = 0; t < m->ntendon; t++) {
+            if (!arm_ten[t]) continue;
+            mjtNum jdv = (tacc[m->ntendon + t] - tacc[t]) / (2*eps);
+            for (int k = 0; k < m->ten_J_rownnz[t]; k++)
+              w[m->ten_J_colind[m->ten_J_rowadr[t]+k]] += arm_ten[t] * d->ten_J[m->ten_J_rowadr[t]+k] * jdv;
+          }
           prd(w, nv);
-          free(acc); mj_deleteData(d2);
+          free(acc); free(tacc); mj_deleteData(d2);
         }
+        // inverse dynamics for the acceleration a = v:  qfrc_inverse + qfrc_passive + qfrc_constraint  (= M a + bias)
+        for (int i = 0; i < nv; i++) d->qacc[i] = v[i];
+        mj_inverse(m, d);
+        for (int i = 0; i < nv; i++) u[i] = d->qfrc_inverse[i] + d->qfrc_passive[i] + d->qfrc_constraint[i];
+        prd(u, nv);
         int info[3] = {m->nC, m->nM, m->ntendon}; pri(info, 3);
-        free(full); free(v); free(w); free(u); free(jp); free(jr); free(tj);
+        free(full); free(v); free(w); free(u); free(jp); free(jr); free(tj); free(arm_dof); free(arm_ten);
         MJG_END;
       } else printf("ERR %s", mjg_last_error);
       if (d) mj_deleteData(d);
